@@ -134,6 +134,21 @@ def worker_main(argv):
                 mod.run_case(ctx, case)
             except harness.Skip as ex:
                 ctx.count("discarded:" + str(ex))
+            except Exception as ex:
+                # an exception raised INSIDE the code under test that reaches the monitor through a direct library
+                # call is an observation (a violation witness), not a harness failure
+                import traceback
+                tb = traceback.extract_tb(ex.__traceback__)
+                srcd, verd = os.path.abspath(src_dir()), os.path.abspath(VERIF)
+                i_src = max([i for i, f in enumerate(tb) if os.path.abspath(f.filename).startswith(srcd)], default=-1)
+                i_mon = max([i for i, f in enumerate(tb) if os.path.abspath(f.filename).startswith(verd)], default=-1)
+                if i_src > i_mon:   # raised in (or below) the code under test, not in the monitor
+                    fr = tb[i_src]
+                    where = f"{os.path.basename(fr.filename)}:{fr.lineno} in {fr.name}"
+                    ctx.violation("other:exception_escaped_from_code_under_test:" + type(ex).__name__,
+                                  f"{type(ex).__name__}: {ex} at {where}", case=case)
+                else:
+                    raise
             if budget and time.time() - t0 > budget:
                 ctx.count("budget_stop")
                 break
